@@ -67,6 +67,7 @@ type recipe struct {
 	flipAuth   int
 	truncAuth  int
 	authData   types.AuthorizationData // sealed authorization data (nil: none)
+	badPAC     bool                    // authData carries a PAC whose server signature does not verify
 	trailer    bool                    // an unsealed EncTicketPart travels after enc-part (Ticket.Unmarshal fills DecryptedEncPart from it)
 }
 
